@@ -169,6 +169,10 @@ def r14_3(prog, out):
             continue
         bi = prog.info(b.id)
         ent = [bb for bb, t in bi.calls(lambda c: (c.impl_self or "") == A.ty("PushRegistry") or c.target.startswith(A.ty("PushRegistry") + "::"))]
+        if not ent:
+            # the registry is read by code written (or spliced) into the round itself
+            ent = [e.bb for e in prog.effects(b.id) if e.touches(reg) and e.kind in ("read", "iter", "handle", "read_first", "read_last") or
+                   (e.touches(reg) and e.lib.split("::")[-1] in ("iter", "values", "keys", "get", "into_iter"))]
         sp = [s for s in bi.spawns if s.task and ds & set(prog.cone(s.task, follow=("call", "closure", "poll", "spawn")))]
         if ent and sp:
             rounds.append((b.id, ent, sp))
@@ -180,7 +184,8 @@ def r14_3(prog, out):
         # the spawn's subscription argument derives from a manager lookup keyed by a registry entry
         t = bi.call_at(sp[0].bb)
         s = sl.of(bid, t.args[-1])
-        if any(c.endswith("SubscriptionManager::get_subscription") for c in s.calls) and any(c.endswith("PushSubscriptionsRegistry::entries") for c in s.calls):
+        from_registry = any(c.startswith(A.ty("PushRegistry") + "::") for c in s.calls) or reg in s.fields
+        if any(c.endswith("SubscriptionManager::get_subscription") for c in s.calls) and from_registry:
             out.holds(key, bi.loc(sp[0].bb), "each dispatch task is built from a registry entry and a manager lookup of that name")
         else:
             out.violation(key, bi.loc(sp[0].bb), "the pushed subscriptions are not taken from the push registry (%s)" % sorted(c.split("::")[-1] for c in s.calls)[:6])
@@ -266,9 +271,13 @@ def r14_4(prog, out):
         out.violation("round-races-deletion", "", "a push round is not interrupted when its subscription is deleted")
     # lookup failure => skip
     for b in prog.facts.lib_bodies():
-        if not b.coroutine or not b.id.startswith("crate::push::"):
+        if not b.id.startswith("crate::push::"):
             continue
         bi = prog.info(b.id)
+        if not b.coroutine:
+            for bb, t in bi.calls(lambda c: c.target.endswith("SubscriptionManager::get_subscription")):
+                out.undecided("lookup-miss-skips:%s" % prog.short(b.id), bi.loc(bb), "the lookup happens inside a closure: what a miss leads to is decided by its caller")
+            continue
         for bb, t in bi.calls(lambda c: c.target.endswith("SubscriptionManager::get_subscription")):
             key = "lookup-miss-skips:%s" % prog.short(b.id)
             # on the Err arm no dispatch is spawned
